@@ -180,7 +180,11 @@ func Setup(w *World, base int, poolSize int) (*Inc, error) {
 			case 2:
 				iss = []string{"X", "Y"}
 			}
-			a0.Submit(w.SynthEntry(fmt.Sprintf("w%d", i), i%3 == 0, iss...), false)
+			if i%5 == 4 {
+				a0.Submit(w.RealEntry(fmt.Sprintf("w%d", i), i%3 == 0, iss...), false)
+			} else {
+				a0.Submit(w.SynthEntry(fmt.Sprintf("w%d", i), i%3 == 0, iss...), false)
+			}
 		}
 		if err := a0.Round(); err != nil {
 			return nil, fmt.Errorf("setup round: %w", err)
